@@ -19,7 +19,11 @@ def nesting_exec(rng):
             cmds.append("s %d push" % t)
             depth += 1
         elif r < 0.70:
-            cmds.append("s %d alloc %d %d" % (t, rng.choice([1, 8, 24, 100, 1000, 3000, 5000, 9000]), rng.choice([1, 2, 8, 16, 64])))
+            mode = rng.choice([0, 0, 1, 2])
+            if mode == 2:   # allocator_traits array: count elements of the size
+                cmds.append("s %d alloc %d %d 2 %d" % (t, rng.choice([1, 3, 8, 24, 100, 1000]), rng.choice([1, 2, 8, 16]), rng.choice([1, 2, 3, 7])))
+            else:
+                cmds.append("s %d alloc %d %d %d" % (t, rng.choice([1, 8, 24, 100, 1000, 3000, 5000, 9000]), rng.choice([1, 2, 8, 16, 64]), mode))
         elif r < 0.80:
             cmds.append("s %d check" % t)
         else:
